@@ -430,6 +430,22 @@ def try_read(path, data):
         r._file.close()
     except Exception:
         pass
+    if not isinstance(recs, OpenedButUnreadable):
+        # an accepted image must give the same records through every way of reading them
+        for how in ("iterate", "next"):
+            try:
+                r2 = GroFile(path)
+                if how == "iterate":
+                    alt = [line for line in r2]
+                else:
+                    alt = [next(r2) for _ in range(r2.natoms)]
+                r2._file.close()
+            except Exception:
+                alt = None
+            if alt is None or not _same_records(alt, recs):
+                bad = OpenedButUnreadable()
+                bad.how = how
+                return bad
     return recs
 
 
